@@ -1,0 +1,13 @@
+//go:build verif
+
+package introspection_datasource
+
+// Contracts for the deductive verifier in /verif (comment-only file, build tag verif).
+
+// C17, __type(name: N) answers for the type called N: the argument is placed into the JSON input of the introspection
+// source ("type_name": ...), so it has to be rendered as a JSON value - the default rendering writes the decoded
+// string between the template's quotes, and a quote or backslash in N makes another request (or none) of it.
+//@ func IntrospectionConfigFactory.BuildFieldConfigurations
+//@   ensures {an.argument.placed.into.the.json.input.is.rendered.as.json} forall k in 0..len(result) :: forall a in 0..len(result[k].Arguments) :: result[k].Arguments[a].RenderConfig == plan.RenderArgumentAsJSONValue
+//@   modifies *
+//@   safety none
